@@ -326,3 +326,33 @@ fn c03_io_latch_untyped_targets_never_store_raw() {
     kani::cover!(k % 4 == 3);
     std::mem::forget(r);
 }
+macro_rules! tag_case {
+    ($tid:ident, $src:expr, |$r:ident| $ok:expr) => {{
+        let $r = coerce_value_to_type($src, TypeId::$tid);
+        assert!($ok, "C03: initialiser coercion stored a value whose tag is not the declared type (or refused a compatible initialiser)");
+        std::mem::forget($r);
+    }};
+}
+
+// @verif prop=C03 kernel=K4 tiers=quick,thorough timeout=1800 unwind=1 mem=12
+// @verif what=initialiser coercion for REAL / LREAL / CHAR / WCHAR targets: numeric initialisers of any integer or real type are stored with the declared real tag (integers up to 2^24 resp. 2^53 exactly), CHAR/WCHAR keep their tag, foreign tags are refused
+// @verif fns=harness::coerce::{coerce_value_to_type,coerce_real,coerce_char}
+// @verif bound=every payload of the source types DINT, LINT, ULINT, REAL, LREAL, CHAR, WCHAR, BOOL
+#[kani::proof]
+fn c03_init_coercion_real_char() {
+    let k: u8 = kani::any();
+    match k % 10 {
+        0 => { let x: i32 = kani::any(); tag_case!(REAL, Value::DInt(x), |r| matches!(&r, Ok(Value::Real(y)) if (x.unsigned_abs() > (1 << 24)) || *y == x as f32)) }
+        1 => { let x: i64 = kani::any(); tag_case!(LREAL, Value::LInt(x), |r| matches!(&r, Ok(Value::LReal(y)) if (x.unsigned_abs() > (1u64 << 53)) || *y == x as f64)) }
+        2 => { let x: u64 = kani::any(); tag_case!(LREAL, Value::ULInt(x), |r| matches!(&r, Ok(Value::LReal(_)))) }
+        3 => { let b: u32 = kani::any(); tag_case!(LREAL, Value::Real(f32::from_bits(b)), |r| matches!(&r, Ok(Value::LReal(y)) if y.to_bits() == (f32::from_bits(b) as f64).to_bits())) }
+        4 => { let b: u64 = kani::any(); tag_case!(REAL, Value::LReal(f64::from_bits(b)), |r| matches!(&r, Ok(Value::Real(_)))) }
+        5 => { let b: u32 = kani::any(); tag_case!(REAL, Value::Real(f32::from_bits(b)), |r| matches!(&r, Ok(Value::Real(y)) if y.to_bits() == b || f32::from_bits(b).is_nan())) }
+        6 => { let c: u8 = kani::any(); tag_case!(CHAR, Value::Char(c), |r| matches!(&r, Ok(Value::Char(y)) if *y == c)) }
+        7 => { let c: u16 = kani::any(); tag_case!(WCHAR, Value::WChar(c), |r| matches!(&r, Ok(Value::WChar(y)) if *y == c)) }
+        8 => { let x: bool = kani::any(); tag_case!(REAL, Value::Bool(x), |r| r.is_err()) }
+        _ => { let x: i32 = kani::any(); tag_case!(CHAR, Value::DInt(x), |r| r.is_err()) }
+    }
+    kani::cover!(k % 10 == 0);
+    kani::cover!(k % 10 == 9);
+}
